@@ -78,6 +78,8 @@ def shards(tier, seed):
         for mode in ("default", "autoconvert"):
             for arr in (False, True):
                 out.append(("arith", which, mode, arr))
+                if which == "D":
+                    out.append(("mixed", which, mode, arr))
             out.append(("scalar", which, mode))
         out.append(("parse", which))
     out.append(("log",))
@@ -366,6 +368,66 @@ def run_scalar(acc, which, mode):
     acc.sample({"clause": "scalar-partner", "registry": which, "mode": mode, "q": ["10", "degC"], "cells": ["O*n", "n*O", "O/n", "n/O", "O+n", "O**0", "O**1", "O**2"]})
 
 
+# ----------------------------------------------------------------------------- products with ordinary quantities
+
+PARTNERS = [("meter", {"meter": 1}), ("meter*second", {"meter": 1, "second": 1}), ("", {}), ("1/second", {"second": -1}), ("meter**2/second", {"meter": 2, "second": -1})]
+
+
+def run_mixed(acc, which, mode, arr):
+    """temperature (x) ordinary quantity, both orders: allowed for absolute and delta units; for an offset unit only
+    in autoconvert mode, where the temperature goes through the base unit first - whatever the OTHER operand's unit
+    container looks like (one unit, several, none)"""
+    T = unit_table(which)
+    if which != "D":
+        return
+    ureg = get_reg(which, mode)
+    OP = {"*": operator.mul, "/": operator.truediv}
+    IOP = {"*": operator.imul, "/": operator.itruediv}
+    tag = "array" if arr else "scalar"
+    for n, (k, c, a, b) in T.items():
+        for pname, pu in PARTNERS:
+            for xs, ps in (("10", "2"), ("-40", "3")):
+                x, pv = fr(xs), fr(ps)
+                for op in "*/":
+                    for order in ("T.P", "P.T"):
+                        for form in ("functional", "inplace"):
+                            tq = mkq(ureg, n, x, arr)
+                            pq = mkq(ureg, ureg.UnitsContainer(pu), pv, arr)
+                            left, right = (tq, pq) if order == "T.P" else (pq, tq)
+                            sl, sr = snap(left), snap(right)
+                            acc.ev()
+                            acc.nt(("mixed", which, mode, tag, n, pname, xs, op, order, form))
+                            o = call(lambda: (OP if form == "functional" else IOP)[op](left, right))
+                            case = {"registry": which, "mode": mode, "magnitudes": tag, "form": form, "temperature": [xs, n], "partner": [ps, pname], "op": op, "order": order}
+                            kp = f"{k}{op}MULT" if order == "T.P" else f"MULT{op}{k}"
+                            if snap(right) != sr or (form == "functional" and snap(left) != sl):
+                                acc.violation(["arithmetic", op, kp, "operand-other-than-inplace-target-modified", mode, tag, form], case, "operands unchanged", "changed")
+                            if k == "OFF" and mode == "default":
+                                if o != ("exc", "OffsetUnitCalculusError"):
+                                    acc.violation(["arithmetic", op, kp, "ambiguous-combination-not-refused", mode, tag, form], case, "OffsetUnitCalculusError", show(o))
+                                acc.outcome("refused")
+                                continue
+                            tv, tu = (a * x + b, "kelvin") if k == "OFF" else (x, c)
+                            tv1 = (a * (x + 1) + b) if k == "OFF" else x + 1
+                            lu, lv, lv1 = ({tu: 1}, tv, tv1) if order == "T.P" else (pu, pv, pv + 1)
+                            ru, rv, rv1 = (pu, pv, pv + 1) if order == "T.P" else ({tu: 1}, tv, tv1)
+                            if op == "/" and (rv == 0 or (arr and rv1 == 0)):
+                                continue
+                            eu = dict(lu)
+                            for kk, vv in ru.items():
+                                eu[kk] = eu.get(kk, 0) + (vv if op == "*" else -vv)
+                            eu = {kk: Fraction(vv) for kk, vv in eu.items() if vv}
+                            f = OP[op]
+                            em = (f(lv, rv), f(lv1, rv1)) if arr else f(lv, rv)
+                            if o[0] != "ok":
+                                acc.violation(["arithmetic", op, kp, "documented-combination-raises", mode, tag, form], case, [show(em), {kk: str(vv) for kk, vv in eu.items()}], show(o))
+                                continue
+                            if units_of(o[1]) != eu or mag_of(o[1]) != em:
+                                acc.violation(["arithmetic", op, kp, "result-differs-from-documented-rule", mode, tag, form], case, [show(em), {kk: str(vv) for kk, vv in eu.items()}], show(o[1]))
+                            acc.outcome("computed")
+    acc.sample({"clause": "arithmetic", "registry": which, "mode": mode, "example": "Q(2, m*s) * Q(10, degC) -> 566.3 K*m*s in autoconvert mode, refused otherwise"})
+
+
 # ----------------------------------------------------------------------------- parsing
 
 
@@ -460,6 +522,31 @@ def run_log(acc):
                         back = call(lambda: Q(o[1], n2).to(n).magnitude)
                         if back[0] != "ok" or abs(back[1] - x) > 1e-9:
                             acc.violation(["log", "to", "LOG->LOG", "not-inverse", mode], dict(case, dst=n2), x, show(back))
+            # the same maps on ndarray magnitudes, not in place and IN PLACE (ito / convert(inplace=True) use the
+            # converters' in-place branches, which are separate code)
+            import numpy as np
+
+            xs = np.array(LOG_MAGS, dtype=float)
+            lins = np.array([scale * base ** (v / factor) for v in LOG_MAGS])
+            for n2, (ref2, scale2, base2, factor2) in list(LOGS.items()) + [(None, (ref, None, None, None))]:
+                if n2 is not None and (ref == "") != (ref2 == ""):
+                    continue
+                dst = n2 if n2 is not None else (ref or "dimensionless")
+                want = lins if n2 is None else np.array([factor2 * math.log(v / scale2) / math.log(base2) for v in lins])
+                for direction in ("forward", "backward"):
+                    src_u, dst_u, src_v, dst_v = (n, dst, xs, want) if direction == "forward" else (dst, n, want, xs)
+
+                    def _ito():
+                        q = Q(src_v.copy(), src_u)
+                        q.ito(dst_u)
+                        return q.magnitude
+
+                    for api, fn in (("to[array]", lambda: Q(src_v.copy(), src_u).to(dst_u).magnitude), ("ito[array]", _ito), ("convert(inplace=True)[array]", lambda: ureg.convert(src_v.copy(), src_u, dst_u, inplace=True))):
+                        acc.ev()
+                        acc.nt(("logarr", mode, n, dst, direction, api))
+                        o = call(fn)
+                        if o[0] != "ok" or not np.allclose(np.asarray(o[1], dtype=float), dst_v, rtol=1e-9, atol=1e-9):
+                            acc.violation(["log", api, "LOG<->" + ("LOG" if n2 is not None else "linear"), "differs-from-logarithmic-map", mode], {"mode": mode, "src": src_u, "dst": dst_u, "values": [float(v) for v in src_v]}, [float(v) for v in dst_v], show(o) if o[0] != "ok" else [float(v) for v in np.asarray(o[1], dtype=float)])
             # incompatible reference: dBm is a power level, not a length
             acc.ev()
             o = call(lambda: Q(1.0, n).to("meter"))
@@ -483,6 +570,8 @@ def run_shard(acc, shard, tier, seed):
         run_conv(acc, shard[1])
     elif k == "arith":
         run_arith(acc, shard[1], shard[2], shard[3])
+    elif k == "mixed":
+        run_mixed(acc, shard[1], shard[2], shard[3])
     elif k == "scalar":
         run_scalar(acc, shard[1], shard[2])
     elif k == "parse":
@@ -500,6 +589,8 @@ def replay(rec):
     mode = case.get("mode", "default")
     if site[0] == "conversion":
         run_conv(acc, which)
+    elif site[0] == "arithmetic" and "partner" in case:
+        run_mixed(acc, which, mode, case.get("magnitudes") == "array")
     elif site[0] == "arithmetic":
         run_arith(acc, which, mode, case.get("magnitudes") == "array")
     elif site[0] in ("scalar-partner", "ordering"):
@@ -517,8 +608,8 @@ MANIFEST = {
     "technique": "bounded exhaustive enumeration of (unit kind x unit kind x operator x registry mode x scalar/array x functional/in-place) cells against exact affine/logarithmic maps and the documented result-kind table",
     "text": "Every ordered pair of the 8 temperature-like units (2 absolute, 3 offset, 3 delta) x 5 magnitudes is converted (to/convert/m_as/ito) and inverted in the Fraction registry and compared exactly with "
     "the affine maps read from the definition text; offset<->delta and offset-in-compound conversions must raise DimensionalityError. Every (L,R) unit pair x {+,-,*,/} x {default, autoconvert} x {scalar, "
-    "ndarray} x {functional, in-place} cell must produce exactly the documented unit and value or OffsetUnitCalculusError, and must leave every operand but an in-place target unchanged. Scalar partners, "
-    "powers, ordering, log<->linear and log<->log pairs, refusal of log arithmetic, and parse_units delta substitution under as_delta/default_as_delta complete the cell space. thorough repeats it on a "
+    "ndarray} x {functional, in-place} cell must produce exactly the documented unit and value or OffsetUnitCalculusError, and must leave every operand but an in-place target unchanged. Products and quotients of every temperature-like unit with ordinary quantities whose container has one, several or no units, in both orders, same modes and forms. Scalar partners, "
+    "powers, ordering, log<->linear and log<->log pairs (scalars, and ndarrays through to / ito / convert(inplace=True)), refusal of log arithmetic, and parse_units delta substitution under as_delta/default_as_delta complete the cell space. thorough repeats it on a "
     "generated registry with rational scale/offset units.",
     "note": "Trusted: R1's reading of scale/offset (their standardised values are C20's subject), the result-kind table (DESIGN Appendix B, transcribed from docs and test tables), math.log/exp for the log "
     "domain (tolerance 1e-9). Compound log units (documented as beta) and offset units inside compounds in autoconvert mode are not asserted.",
